@@ -471,7 +471,8 @@ impl Writer {
     /// Copy data from files that are included for merging. Once finish, copied files are deleted.
     #[tracing::instrument(level = "debug", skip(self))]
     fn merge(&mut self) -> Result<(), Error> {
-        let path = self.ctx.conf.path.as_path();
+        let ctx = self.ctx.clone();
+        let path = ctx.conf.path.as_path();
         let min_merge_fileid = self.next_fileid()?;
         let mut merge_fileid = min_merge_fileid;
         debug!(merge_fileid, "new merge file");
@@ -550,6 +551,10 @@ impl Writer {
             merge_hintfile_writer.sync()?;
         }
 
+        // Continue in a new active file before removing anything, the current one may be among
+        // the merged files
+        self.new_active_datafile(merge_fileid + 1)?;
+
         // Remove stale files from system and storage statistics
         for id in &fileids_to_merge {
             self.ctx.stats.remove(id);
@@ -564,8 +569,6 @@ impl Writer {
                 }
             }
         }
-
-        self.new_active_datafile(merge_fileid + 1)?;
         Ok(())
     }
 
